@@ -54,6 +54,12 @@ def run(pid, tier, seed, *, emitters, extras, sig, rule, assumptions, trace_modu
             raise core.MachineryError("driver crashed: " + crashed[0]["tb"] + json.dumps(crashed[0]["cfg"])[:300])
         if len(out) != len(recs):
             raise core.MachineryError("coverage closure: not every configuration was evaluated")
+        flat = []
+        for o in out:                      # a driver may expand one task into many records
+            flat += o["_many"] if isinstance(o, dict) and "_many" in o else [o]
+        out = flat
+        if any("_many" in r or r.get("kind") in ("gradbatch",) for r in recs):
+            n_tlc = sum(1 for o in out if o.get("src", "tlc") == "tlc")
         rej, acc, res = tracecheck.validate(trace_module, TRACE_CFG, out, sc, "tr" + pid, chunk=chunk)
         if any(isinstance(p, dict) and p.get("tag") == "LEMMA" for r in res for p in r.prints):
             raise core.MachineryError("a lemma of the oracle (twin records) does not hold: the specification is inconsistent")
